@@ -46,3 +46,12 @@ add("C15", "hdmc/poolmc", "model_checking",
 add("C19", "hdmc/hemc+poolmc", "model_checking",
     "Part 1: the real Timeout service in paused virtual time over a complete grid of inner completion time x inner result x duration x caller's first poll: result, completion time, inner-drop and no-poll-after-resolution. Part 2: dropping the inner future is applied as Cancel(r) in every reachable state of the pool graph (every stage a pooled request can be in) and from every quiescent state a fresh probe request to the origin must complete.",
     _POOL_NOTE + " The composition of TimeoutLayer with the pool is argued (the timeout's only effect on the pool is dropping the inner future), not run as one system.", "exhaustive virtual-time grid + explicit-state BFS of the real pool", "DESIGN.md §8 C19")
+
+add("C08", "hdmc/iomc", "model_checking",
+    "Unit level over the real sniffer (ReadVersion) and Rewind through the verif-hooks wrapper and a scripted reader: for a stream family (h2 preface + frames, HTTP/1.1 requests, PRI look-alikes, every strict prefix of the preface followed by EOF or by a diverging byte) every composition of the first 32 bytes with <=3 cuts (covers every single detector transition), Pending placements and read-back capacities; thorough: all 2^23 compositions of the 24-byte window. Oracle: HTTP/2 iff the stream starts with the preface; bytes read back through the rewind equal the bytes sent.",
+    "The end-to-end clause (answer identical to a single-protocol server) is covered by the schedmc differential scenario when present in this evidence; otherwise by composition: the protocol handler receives exactly the client's bytes.",
+    "bounded-exhaustive enumeration of read chunkings over the real sniffer, reference predicate", "DESIGN.md §6, §8 C08")
+add("C18", "hdmc/iomc", "model_checking",
+    "Every sequence of up to 4 (thorough 5) steps over an alphabet of 47 (thorough also 62) (operation, environment answer) pairs is executed against each adapter stack (TokioIo both directions and round trip, Rewind with prefix 0/1/3, TlsBraid::NoTls, client and server Stream, the server read stack) over a scripted inner stream, and against both ends of the in-memory duplex (raw, Braid, client/server Stream; buffer sizes 1/2/8); after every step a reference FIFO is compared: nothing invented, reordered, duplicated or lost, pre-filled buffers untouched, Pending/EOF/error propagated.",
+    "TcpStream/UnixStream: fixed sequential scripts over real socket pairs (supplementary). TLS record layer (rustls) is trusted. Read buffers are poisoned to make bookkeeping errors of the unsafe ReadBuf bridging visible as byte mismatches; no UB detector is part of the verdict.",
+    "bounded-exhaustive operation-sequence enumeration vs reference FIFO", "DESIGN.md §6, §8 C18")
